@@ -316,6 +316,10 @@ def guard_cases():
         for pos in ("before", "after"):
             out.append({"guard": "cycle_with_empty", "form": form, "empty_at": pos, "expect": "error"})
     out.append({"guard": "cycle3_with_empty", "expect": "error"})
+    # cycles that branch: each step yields the item itself twice / a 2-cycle whose one member yields the other twice
+    for form in ("selfpair", "selfpair_list", "selfpair_iter"):
+        out.append({"guard": "branching_self", "form": form, "expect": "error"})
+    out.append({"guard": "branching_cycle2", "expect": "error"})
     out.append({"guard": "chain_then_tuple", "n": 60, "expect": "ok"})
     out.append({"guard": "two_chains", "n": 80, "expect": "ok"})
     return out
@@ -333,6 +337,12 @@ def build_guard(g):
         return {"root": node, "elab": {}}
     if kind == "self":
         return {"root": {"name": 1, "u": "self", "ch": []}, "elab": {}}
+    if kind == "branching_self":
+        return {"root": {"name": 1, "u": g["form"], "ch": []}, "elab": {}}
+    if kind == "branching_cycle2":
+        a1 = {"name": 1, "u": "cycle", "ch": []}
+        b = {"name": 2, "u": "tuple", "ch": [a1, dict(a1)]}
+        return {"root": {"name": 1, "u": "cycle", "ch": [b]}, "elab": {}}
     if kind == "cycle2":
         # A -> B -> A: B's child refers to A by name (realize() memoises by name)
         a = {"name": 1, "u": "cycle", "ch": [{"name": 2, "u": "cycle", "ch": [{"name": 1, "u": "cycle", "ch": []}]}]}
